@@ -34,6 +34,7 @@ import (
 	api_v1 "k8s.io/api/core/v1"
 	networking "k8s.io/api/networking/v1"
 	meta_v1 "k8s.io/apimachinery/pkg/apis/meta/v1"
+	k8stypes "k8s.io/apimachinery/pkg/types"
 )
 
 var verifLog = slog.New(slog.NewTextHandler(io.Discard, nil))
@@ -163,7 +164,7 @@ func verifTsEx(ns, name string, uid int, passthroughHost string) *TransportServe
 //
 //	ai|ns|name|uid   add/update Ingress          di|ns/name   delete Ingress      bi|k+k  batch delete Ingresses
 //	av|ns|name|uid   add/update VirtualServer    dv|ns/name                       bv|k+k  batch delete VirtualServers
-//	at|ns|name|uid|host  add/update TransportServer (host "_" = TCP listener, else TLS passthrough)   dt|ns/name
+//	at|ns|name|uid|host  add/update TransportServer (host "_" = TCP listener, else TLS passthrough)   dt|ns/name   bt|k+k  UpdateTransportServers(nil, keys)
 //	rs               restart: new Configurator and LocalManager on the same directory
 func VerifFiles(kv map[string]string) string {
 	root, err := os.MkdirTemp("", "verif-c10-")
@@ -214,6 +215,11 @@ func VerifFiles(kv map[string]string) string {
 			}
 		case "bv":
 			for _, e := range cnf.BatchDeleteVirtualServers(strings.Split(f[1], "+")) {
+				chk(e)
+			}
+		case "bt":
+			// the batch path of cleanupUnwatchedNamespacedResources: UpdateTransportServers(nil, keys)
+			for _, e := range cnf.UpdateTransportServers(nil, strings.Split(f[1], "+")) {
 				chk(e)
 			}
 		case "rs":
@@ -320,7 +326,7 @@ func verifSecret(ns, name, typ, payload string, ver int) *api_v1.Secret {
 }
 
 // VerifSecrets runs a history over the real LocalSecretStore + Configurator + LocalManager.
-// ops: a|ns|name|typ|payload|ver (add/update)   d|ns/name (delete)   g|ns/name (lookup by a resource)
+// ops: a|ns|name|typ|payload|ver[|uid] (add/update)   d|ns/name (delete)   g|ns/name (lookup by a resource)
 func VerifSecrets(kv map[string]string) string {
 	root, err := os.MkdirTemp("", "verif-c11-")
 	if err != nil {
@@ -342,6 +348,9 @@ func VerifSecrets(kv map[string]string) string {
 		case "a":
 			ver, _ := strconv.Atoi(f[5])
 			s := verifSecret(f[1], f[2], f[3], f[4], ver)
+			if len(f) > 6 {
+				s.UID = k8stypes.UID(f[6])
+			}
 			label := fmt.Sprintf("%s/%s@%d", f[1], f[2], ver)
 			switch f[3] {
 			case "tls":
